@@ -337,6 +337,9 @@ class C15(CreateProp):
              "what": "Hasher(align) + TorrentFile.assemble padding arithmetic (fixed variant)"},
             {"module": "HasherV1.tla", "cfg": "MC_HasherV1_code.cfg", "expect": "fail",
              "what": "padding arithmetic as found at the pinned commit (size %% P, P - size) must violate AssembleCorrect"},
+            {"tool": "tlapm", "module": "CoreLemmas.tla", "tier": "thorough",
+             "what": "unbounded: for ALL sizes and piece lengths the padding gap lies in 0..P-1, aligns the next file to a "
+                     "piece boundary, is 0 exactly for piece multiples; ceil-division covers the payload with a short last piece"},
         ]
 
     def cases(self, tier, rng):
